@@ -652,6 +652,9 @@ def run(rep):
     rep.extend(obs)
     if crashes:
         rep.crash = crashes[0]
+    from pgv.replayers import c03 as R03
+    for res in R03.interpolation_cases():
+        rep.add_bounded(f"{P}/bounded.{res['name']}", res['ok'], res['detail'], replay={'kind': 'c03.interpolation', 'name': res['name']})
     rep.shape_bounded = {'N': nmax, 'what': f'split_ads_data for n <= {nmax} symbolic pressures x 5 row labelings; '
                                             'selection for 3-4 rows; accessors on 2 symbolic rows',
                          'obligations': sum(1 for o in obs if '/math_utilities.split_ads_data/' in o['name'] or 'selection.' in o['name'])}
